@@ -50,4 +50,8 @@ def plan(tier):
            stubs=["mypy -> validated shim"], symbolic="module-tree selectors"),
         CH("forward_reference", "harness.c18", "forward_reference", [""], timeout=t, desc="same-module class lookup vs definition order",
            stubs=["mypy -> shim"]),
+        CH("typevar_state", "harness.c18", "typevar_state", [f"0:{u}" for u in range(4)], timeout=t,
+           desc="a function's type variables do not depend on the module analysed before it (generic class with TypeVar-typed "
+                "class attributes) nor on the order of definitions",
+           stubs=["real mypy trees of a fixed corpus of 8 modules, converted to shim trees"], symbolic="corpus selectors"),
     ]
